@@ -44,7 +44,9 @@ Definition proj_c18 (a : action) : bool :=
   end.
 
 Definition mon_c02 (c : smcase) (t : list action) : bool :=
-  match c with KSm _ _ _ cup _ _ _ _ => accepts step2 (init2 cup) t && accepts step2b (init2b cup) t end.
+  match c with KSm _ cfg url cup apps e _ _ =>
+    (* "counted as one failed check", and the last-contact time untouched: the bookkeeping rules of C08's proved monitor *)
+    accepts step2 (init2 cup) t && accepts step2b (init2b cup) t && accepts step8 (init8 cfg url cup apps (e_store e)) t end.
 Definition run_c02 := run_sm proj_c02 mon_c02.
 Definition mon_c04 (c : smcase) (t : list action) : bool := match c with KSm _ _ _ cup _ _ _ _ => accepts step4 (init4 cup) t end.
 Definition run_c04 := run_sm proj_c04 mon_c04.
